@@ -219,3 +219,32 @@ func definitelyErrorReturn(g *core.Graph, f *core.Func, rn *core.GNode) bool {
 	}
 	return true
 }
+
+// tokenOrName: the canonical token of a local variable of f (core/canon.go), or the object's name for anything else.
+func tokenOrName(f *core.Func, o types.Object) string {
+	if o == nil {
+		return "?"
+	}
+	if t := core.LocalToken(f, o); t != "" {
+		return t
+	}
+	return o.Name()
+}
+
+func init() {
+	// parameter roles of anchored functions, by position (confirmed on the pinned tree; see core.ParamRoles)
+	history := map[string]int{"limit": 2, "before": 3, "until": 4}
+	core.ParamRoles["slottools.CalcEpochForSlot"] = map[string]int{"slot": 0}
+	core.ParamRoles["gsfa.(*GsfaReader).Get"] = map[string]int{"limit": 2}
+	core.ParamRoles["gsfa.(*GsfaReaderMultiepoch).Get"] = map[string]int{"limit": 2}
+	for _, k := range []string{"gsfa.(*GsfaReader).GetBeforeUntil", "gsfa.(*GsfaReaderMultiepoch).GetBeforeUntil", "gsfa.(*GsfaReaderMultiepoch).GetBeforeUntilSlot",
+		"gsfa.(*GsfaReaderMultiepoch).iterBeforeUntil", "gsfa.(*GsfaReaderMultiepoch).iterBeforeUntilSlot"} {
+		core.ParamRoles[k] = history
+	}
+	core.ParamRoles["main.(*MultiEpoch).getGsfaReadersInEpochDescendingOrderForSlotRange"] = map[string]int{"startSlot": 1, "endSlot": 2}
+	core.ParamRoles["main.(*MultiEpoch).findEpochNumberFromSignature"] = map[string]int{"sig": 1}
+	core.ParamRoles["main.(*MultiEpoch).processSlotTransactions"] = map[string]int{"startSlot": 2, "endSlot": 3, "filter": 4}
+	core.ParamRoles["split-car-fetcher.NewMultiReaderAt"] = map[string]int{"readers": 0, "sizes": 1}
+	core.ParamRoles["gsfa/linkedlog.(*LinkedLog).ReadWithSize"] = map[string]int{"offset": 0, "size": 1}
+	core.ParamRoles["compactindexsized.(*Builder).Insert"] = map[string]int{"key": 0, "value": 1}
+}
